@@ -604,4 +604,458 @@ theorem large_interval_complete (hA : ArithOK) {n : Int} (hn : 1 < n) {g h E x r
   obtain ⟨k, _, -, h⟩ := bind_ok_inv h
   exact large_loop_complete hA hn hg hh hE _ h tq
 
+theorem sqrtM_ok_iff {x y : Int} {t t' : List Draw} :
+    sqrtM x t = .ok (y, t') ↔ 0 ≤ x ∧ y = Int.ofNat (isqrt x.toNat) ∧ t' = t := by
+  unfold sqrtM
+  split
+  · next hx => simp only [panic_apply]; constructor
+               · intro h; cases h
+               · rintro ⟨h, -⟩; omega
+  · next hx => rw [pure_ok_iff]; constructor
+               · rintro ⟨rfl, rfl⟩; exact ⟨by omega, rfl, rfl⟩
+               · rintro ⟨-, rfl, rfl⟩; exact ⟨rfl, rfl⟩
+
+theorem sqrtM_neg {x : Int} (hx : x < 0) (t : List Draw) : sqrtM x t = .panic := by
+  unfold sqrtM; rw [if_pos hx]; rfl
+
+theorem tolBounds_ok_iff {a b : Int} {t l T : Nat} {p : Int × Int} {tp tp' : List Draw} :
+    tolBounds a b t l T tp = .ok (p, tp') ↔
+      a ≤ b ∧ p = (2 ^ T * a - tolTheta t l T a b, 2 ^ T * b + tolTheta t l T a b) ∧ tp' = tp := by
+  unfold tolBounds
+  rw [bind_ok_iff]
+  constructor
+  · rintro ⟨sq, t1, h1, h2⟩
+    obtain ⟨h0, rfl, rfl⟩ := sqrtM_ok_iff.mp h1
+    obtain ⟨rfl, rfl⟩ := pure_ok_iff.mp h2
+    exact ⟨by omega, rfl, rfl⟩
+  · rintro ⟨hab, rfl, rfl⟩
+    exact ⟨_, _, sqrtM_ok_iff.mpr ⟨by omega, rfl, rfl⟩, rfl⟩
+
+theorem splitLoop_ok {target lo hi : Int} (fuel : Nat) {r1 r2 : Int} {t t' : List Draw}
+    (h : splitLoop target lo hi fuel t = .ok ((r1, r2), t')) : r2 = target - r1 := by
+  induction fuel generalizing t with
+  | zero => cases h
+  | succ fuel ih =>
+    unfold splitLoop at h
+    obtain ⟨x, _, -, h⟩ := bind_ok_inv h
+    dsimp only at h
+    split at h
+    · obtain ⟨h, -⟩ := pure_ok_iff.mp h
+      simp only [Prod.mk.injEq] at h
+      obtain ⟨rfl, rfl⟩ := h; rfl
+    · exact ih h
+
+theorem grp_divA {G} [CommGroup G] (u v : G) (x r aa y ra1 : ℤ) :
+    (u ^ x * v ^ r * (u ^ aa)⁻¹) * (u ^ (y ^ 2) * v ^ ra1)⁻¹
+      = u ^ (x - aa - y ^ 2) * v ^ (r - ra1) := by
+  have : ∀ (a b : Additive G), (x • a + r • b + -(aa • a)) + -((y ^ 2) • a + ra1 • b)
+      = (x - aa - y ^ 2) • a + (r - ra1) • b := by
+    intro a b; module
+  exact this (Additive.ofMul u) (Additive.ofMul v)
+
+theorem grp_divB {G} [CommGroup G] (u v : G) (x r bb y rb1 : ℤ) :
+    (u ^ bb * (u ^ x * v ^ r)⁻¹) * (u ^ (y ^ 2) * v ^ rb1)⁻¹
+      = u ^ (bb - x - y ^ 2) * v ^ (-r - rb1) := by
+  have : ∀ (a b : Additive G), (bb • a + -(x • a + r • b)) + -((y ^ 2) • a + rb1 • b)
+      = (bb - x - y ^ 2) • a + (-r - rb1) • b := by
+    intro a b; module
+  exact this (Additive.ofMul u) (Additive.ofMul v)
+
+set_option maxHeartbeats 400000 in
+/-- **Algorithm 7/8 completeness.** -/
+theorem tolerance_complete (hA : ArithOK) {n : Int} (hn : 1 < n) {g h E x r a b : Int}
+    {u v : (ZMod n.toNat)ˣ} (hg : Rep n g u) (hh : Rep n h v) (hE : Rep n E (u ^ x * v ^ r))
+    (hE0 : 0 ≤ E) {t l s s1 s2 T : Nat} {tp tp' : List Draw} {π : ProofWt}
+    (hp : proofOfToleranceSpecific x r g h n a b t l s s1 s2 T tp = .ok (π, tp')) (tq : List Draw) :
+    verifyOfToleranceSpecific π g h E n a b t l T tq = .ok (true, tq) := by
+  unfold proofOfToleranceSpecific at hp
+  obtain ⟨p, _, htb, H⟩ := bind_ok_inv hp
+  clear hp
+  obtain ⟨aa, bb⟩ := p
+  simp only [] at H
+  obtain ⟨hab, hp, rfl⟩ := tolBounds_ok_iff.mp htb
+  simp only [Prod.mk.injEq] at hp
+  obtain ⟨haa, hbb⟩ := hp
+  obtain ⟨xa1, _, -, H⟩ := bind_ok_inv H
+  obtain ⟨xb1, _, -, H⟩ := bind_ok_inv H
+  obtain ⟨k, _, -, H⟩ := bind_ok_inv H
+  obtain ⟨pa, _, hsa, H⟩ := bind_ok_inv H
+  obtain ⟨ra1, ra2⟩ := pa
+  obtain ⟨pb, _, hsb, H⟩ := bind_ok_inv H
+  obtain ⟨rb1, rb2⟩ := pb
+  simp only [] at H
+  have hra := splitLoop_ok _ hsa
+  have hrb := splitLoop_ok _ hsb
+  obtain ⟨e1, _, he1, H⟩ := bind_ok_inv H
+  obtain ⟨e2, _, he2, H⟩ := bind_ok_inv H
+  obtain ⟨e3, _, he3, H⟩ := bind_ok_inv H
+  obtain ⟨e4, _, he4, H⟩ := bind_ok_inv H
+  obtain ⟨e5, _, he5, H⟩ := bind_ok_inv H
+  obtain ⟨e6, _, he6, H⟩ := bind_ok_inv H
+  obtain ⟨e7, _, he7, H⟩ := bind_ok_inv H
+  obtain ⟨e8, _, he8, H⟩ := bind_ok_inv H
+  obtain ⟨sqA, _, hsqA, H⟩ := bind_ok_inv H
+  obtain ⟨sqB, _, hsqB, H⟩ := bind_ok_inv H
+  obtain ⟨liA, _, hliA, H⟩ := bind_ok_inv H
+  obtain ⟨liB, _, hliB, H⟩ := bind_ok_inv H
+  obtain ⟨rfl, -⟩ := pure_ok_iff.mp H
+  obtain ⟨-, r1, p1, -⟩ := pw_inv hA hn hg he1
+  obtain ⟨-, r2, p2, -⟩ := pw_inv hA hn hh he2
+  obtain ⟨-, r3, p3, -⟩ := pw_inv hA hn hg he3
+  obtain ⟨-, r4, p4, -⟩ := pw_inv hA hn hh he4
+  obtain ⟨-, r5, p5, -⟩ := pw_inv hA hn hg he5
+  obtain ⟨-, r6, p6, -⟩ := pw_inv hA hn hh he6
+  obtain ⟨-, r7, p7, -⟩ := pw_inv hA hn hg he7
+  obtain ⟨-, r8, p8, -⟩ := pw_inv hA hn hh he8
+  obtain ⟨rEa1, Ea10, Ea1n⟩ := tmod_rep hn (r1.mul r2) (mul_nonneg p1 p2)
+  obtain ⟨rEa2, Ea20, Ea2n⟩ := tmod_rep hn (r3.mul r4) (mul_nonneg p3 p4)
+  obtain ⟨rEb1, Eb10, Eb1n⟩ := tmod_rep hn (r5.mul r6) (mul_nonneg p5 p6)
+  obtain ⟨rEb2, Eb20, Eb2n⟩ := tmod_rep hn (r7.mul r8) (mul_nonneg p7 p8)
+  clear he1 he2 he3 he4 he5 he6 he7 he8
+  obtain ⟨vA, hA1⟩ := square_complete hA hn hg hh rEa1 hsqA tq
+  obtain ⟨vB, hB1⟩ := square_complete hA hn hg hh rEb1 hsqB tq
+  have vLA := large_interval_complete hA hn hg hh rEa2 hliA tq
+  have vLB := large_interval_complete hA hn hg hh rEb2 hliB tq
+  unfold verifyOfToleranceSpecific
+  rw [bind_of_ok (tolBounds_ok_iff.mpr ⟨hab, rfl, rfl⟩)]
+  dsimp only
+  rw [← haa, ← hbb]
+  obtain ⟨gaa, hgaa, rgaa, gaa0, -⟩ := pw_rep hA hn hg aa tq
+  obtain ⟨Ea, hEa, rEa, Ea0, -⟩ := divm_rep hA hn hE rgaa hE0 tq
+  obtain ⟨gbb, hgbb, rgbb, gbb0, -⟩ := pw_rep hA hn hg bb tq
+  obtain ⟨Eb, hEb, rEb, Eb0, -⟩ := divm_rep hA hn rgbb hE gbb0 tq
+  obtain ⟨dA, hdA, rdA, dA0, dAn⟩ := divm_rep hA hn rEa rEa1 Ea0 tq
+  obtain ⟨dB, hdB, rdB, dB0, dBn⟩ := divm_rep hA hn rEb rEb1 Eb0 tq
+  rw [bind_of_ok hgaa, bind_of_ok hEa, bind_of_ok hgbb, bind_of_ok hEb, bind_of_ok hdA,
+    bind_of_ok hdB]
+  rw [grp_divA] at rdA
+  rw [grp_divB] at rdB
+  rw [hra] at rEa2
+  rw [hrb] at rEb2
+  have eA := Rep.unique hn rEa2 rdA Ea20 Ea2n dA0 dAn
+  have eB := Rep.unique hn rEb2 rdB Eb20 Eb2n dB0 dBn
+  rw [← eA, ← eB, hA1, hB1]
+  simp only [beq_self_eq_true, and_self, if_true]
+  rw [bind_of_ok vA]
+  simp only [if_true]
+  rw [bind_of_ok vB, bind_of_ok vLA]
+  simp only [if_true]
+  rw [bind_of_ok vLB]
+  rfl
+
+theorem grp_scale {G} [CommGroup G] (u v : G) (k x r : ℤ) :
+    (u ^ x * v ^ r) ^ k = u ^ (k * x) * v ^ (k * r) := by
+  have : ∀ (a b : Additive G), k • (x • a + r • b) = (k * x) • a + (k * r) • b := by
+    intro a b; module
+  exact this (Additive.ofMul u) (Additive.ofMul v)
+
+theorem rangeT_eq (cs : Suite) (a b : Int) : rangeT cs a b = tolT cs.t cs.l a b := rfl
+
+/-- **C16 completeness**, whole protocol. -/
+theorem range_complete (hA : ArithOK) (cs : Suite) {n : Int} (hn : 1 < n) {g h x a b : Int}
+    {c : Commitment} {u v : (ZMod n.toNat)ˣ} (hg : Rep n g u) (hh : Rep n h v)
+    (hc : Rep n c.value (u ^ x * v ^ c.randomness)) {tp tp' : List Draw} {π : RangeProof}
+    (hp : rangeProve cs x c g h n a b tp = .ok (π, tp')) (tq : List Draw) :
+    rangeVerify cs π g h n a b tq = .ok (true, tq) ∧ π.E = c.value := by
+  unfold rangeProve at hp
+  split at hp
+  · cases hp
+  next hab =>
+  dsimp only at hp
+  obtain ⟨E', _, hE', H⟩ := bind_ok_inv hp
+  obtain ⟨tol, _, htol, H⟩ := bind_ok_inv H
+  obtain ⟨rfl, -⟩ := pure_ok_iff.mp H
+  refine ⟨?_, rfl⟩
+  obtain ⟨-, rE', E'0, -⟩ := pw_inv hA hn hc hE'
+  rw [grp_scale] at rE'
+  unfold rangeVerify
+  rw [if_neg hab]
+  dsimp only
+  obtain ⟨hpm, -⟩ := pw_ok_iff.mp hE'
+  rw [bind_of_ok (pw_apply hpm tq)]
+  simp only [beq_self_eq_true, if_true]
+  exact tolerance_complete hA hn hg hh rE' E'0 htol tq
+
+/-- If the honest prover returns a proof, the value was in `[a, b]` (the square roots of
+`x' − aa` and `bb − x'` are taken of non-negative numbers only). -/
+theorem prover_in_range (hA : ArithOK) (cs : Suite) {n g h x a b : Int} {c : Commitment}
+    {tp tp' : List Draw} {π : RangeProof}
+    (hp : rangeProve cs x c g h n a b tp = .ok (π, tp')) : a < b ∧ a ≤ x ∧ x ≤ b := by
+  unfold rangeProve at hp
+  split at hp
+  · cases hp
+  next hab =>
+  dsimp only at hp
+  obtain ⟨E', _, hE', H1⟩ := bind_ok_inv hp
+  obtain ⟨tol, _, htol, H2⟩ := bind_ok_inv H1
+  clear hp H1 H2
+  unfold proofOfToleranceSpecific at htol
+  obtain ⟨p, _, htb, H⟩ := bind_ok_inv htol
+  clear htol
+  obtain ⟨aa, bb⟩ := p
+  simp only [] at H
+  obtain ⟨hab', hp, rfl⟩ := tolBounds_ok_iff.mp htb
+  simp only [Prod.mk.injEq] at hp
+  obtain ⟨haa, hbb⟩ := hp
+  obtain ⟨xa1, _, h1, H⟩ := bind_ok_inv H
+  obtain ⟨xb1, _, h2, H⟩ := bind_ok_inv H
+  obtain ⟨ha, -, -⟩ := sqrtM_ok_iff.mp h1
+  obtain ⟨hb, -, -⟩ := sqrtM_ok_iff.mp h2
+  have hθ := tolerance_lt hA a b cs.t cs.l hab'
+  have h0 := tolTheta_nonneg cs.t cs.l (tolT cs.t cs.l a b) a b
+  rw [rangeT_eq] at haa hbb ha hb
+  obtain ⟨i1, i2⟩ := scaled_in_range_iff (a := a) (b := b) (x := x) h0 hθ
+  exact ⟨by omega, i1.mp (by rw [haa] at ha; linarith), i2.mp (by rw [hbb] at hb; linarith)⟩
+
+/-- For ANY integer outside `[a, b]` the honest prover does not produce a proof … -/
+theorem honest_out_of_range (hA : ArithOK) (cs : Suite) {n g h x a b : Int} {c : Commitment}
+    (hx : x < a ∨ b < x) (tp : List Draw) (r : RangeProof × List Draw) :
+    rangeProve cs x c g h n a b tp ≠ .ok r := by
+  intro hp
+  obtain ⟨π, tp'⟩ := r
+  obtain ⟨-, h1, h2⟩ := prover_in_range hA cs hp
+  omega
+
+/-- … precisely, it PANICS (`Integer::sqrt` of a negative number) before reading the tape. -/
+theorem honest_out_of_range_panics (hA : ArithOK) (cs : Suite) {n g h x a b : Int} {c : Commitment}
+    (hn : 0 < n) (hab : a < b) (hx : x < a ∨ b < x) (tp : List Draw) :
+    rangeProve cs x c g h n a b tp = .panic := by
+  unfold rangeProve
+  rw [if_neg (by omega)]
+  rw [bind_of_ok (pw_apply (hA.powMod_nonneg c.value _ n hn (by positivity)) tp)]
+  unfold proofOfToleranceSpecific
+  apply bind_of_panic
+  rw [bind_of_ok (tolBounds_ok_iff.mpr ⟨by omega, rfl, rfl⟩)]
+  dsimp only
+  have hθ := tolerance_lt hA a b cs.t cs.l (by omega)
+  have h0 := tolTheta_nonneg cs.t cs.l (tolT cs.t cs.l a b) a b
+  rw [rangeT_eq]
+  obtain ⟨i1, i2⟩ := scaled_in_range_iff (a := a) (b := b) (x := x) h0 hθ
+  by_cases hxa : x < a
+  · apply bind_of_panic
+    apply sqrtM_neg
+    have : ¬ (2 ^ tolT cs.t cs.l a b * a - tolTheta cs.t cs.l (tolT cs.t cs.l a b) a b
+        ≤ 2 ^ tolT cs.t cs.l a b * x) := fun hc => by have := i1.mp hc; omega
+    linarith
+  · have hxb : b < x := by omega
+    have h1 : 0 ≤ 2 ^ tolT cs.t cs.l a b * x -
+        (2 ^ tolT cs.t cs.l a b * a - tolTheta cs.t cs.l (tolT cs.t cs.l a b) a b) := by
+      have := i1.mpr (by omega); linarith
+    rw [bind_of_ok (sqrtM_ok_iff.mpr ⟨h1, rfl, rfl⟩)]
+    apply bind_of_panic
+    apply sqrtM_neg
+    have : ¬ (2 ^ tolT cs.t cs.l a b * x ≤ 2 ^ tolT cs.t cs.l a b * b +
+        tolTheta cs.t cs.l (tolT cs.t cs.l a b) a b) := fun hc => by have := i2.mp hc; omega
+    linarith
+
+theorem tmod_modEq (a m : Int) : tmod a m ≡ a [ZMOD m] := by
+  unfold tmod
+  rw [Int.modEq_iff_dvd]
+  exact ⟨a.tdiv m, by have := Int.tmod_add_mul_tdiv a m; linarith⟩
+
+/-- What a successful `divm(a, b, m)` returns: a solution of `b·y ≡ a (mod m)` (both branches). -/
+theorem divm_spec (hA : ArithOK) {a b m y : Int} (hm : 1 < m) {t t' : List Draw}
+    (h : divm a b m t = .ok (y, t')) : b * y ≡ a [ZMOD m] := by
+  unfold divm at h
+  cases hi : invMod b m with
+  | some r =>
+    rw [hi] at h
+    obtain ⟨rfl, -⟩ := pure_ok_iff.mp h
+    obtain ⟨-, -, hmul⟩ := hA.invMod_some b m r hm hi
+    have h1 : b * r ≡ 1 [ZMOD m] := by
+      unfold Int.ModEq; rw [hmul, Int.emod_eq_of_lt (by omega) hm]
+    calc b * tmod (r * a) m ≡ b * (r * a) [ZMOD m] := (tmod_modEq _ _).mul_left _
+      _ = (b * r) * a := by ring
+      _ ≡ 1 * a [ZMOD m] := h1.mul_right _
+      _ = a := one_mul _
+  | none =>
+    rw [hi] at h
+    simp only [] at h
+    split at h
+    · cases h
+    next hg0 =>
+    generalize hg : Zk.IA.gcd (Zk.IA.gcd a b) m = g at h hg0
+    have hga : g ∣ a := by
+      rw [← hg]; unfold Zk.IA.gcd
+      exact (Int.gcd_dvd_left _ _).trans (Int.gcd_dvd_left _ _)
+    have hgb : g ∣ b := by
+      rw [← hg]; unfold Zk.IA.gcd
+      exact (Int.gcd_dvd_left _ _).trans (Int.gcd_dvd_right _ _)
+    have hgm : g ∣ m := by
+      rw [← hg]; unfold Zk.IA.gcd
+      exact Int.gcd_dvd_right _ _
+    have hgpos : 0 < g := by
+      have h0 : 0 ≤ g := by rw [← hg]; unfold Zk.IA.gcd; exact Int.natCast_nonneg _
+      have : g ≠ 0 := by simpa using hg0
+      omega
+    obtain ⟨a', rfl⟩ := hga
+    obtain ⟨b', rfl⟩ := hgb
+    obtain ⟨m', rfl⟩ := hgm
+    rw [Int.mul_ediv_cancel_left _ hgpos.ne', Int.mul_ediv_cancel_left _ hgpos.ne',
+      Int.mul_ediv_cancel_left _ hgpos.ne'] at h
+    cases hj : invMod b' m' with
+    | none => rw [hj] at h; cases h
+    | some r =>
+      rw [hj] at h
+      obtain ⟨rfl, -⟩ := pure_ok_iff.mp h
+      have hm'pos : 0 < m' := by
+        by_contra hc
+        have : m' ≤ 0 := by omega
+        have := mul_nonpos_of_nonneg_of_nonpos hgpos.le this
+        omega
+      have key : b' * tmod (r * a') m' ≡ a' [ZMOD m'] := by
+        by_cases hm1 : m' = 1
+        · subst hm1; exact Int.modEq_one
+        · have hm' : 1 < m' := by omega
+          obtain ⟨-, -, hmul⟩ := hA.invMod_some b' m' r hm' hj
+          have h1 : b' * r ≡ 1 [ZMOD m'] := by
+            unfold Int.ModEq; rw [hmul, Int.emod_eq_of_lt (by omega) hm']
+          calc b' * tmod (r * a') m' ≡ b' * (r * a') [ZMOD m'] := (tmod_modEq _ _).mul_left _
+            _ = (b' * r) * a' := by ring
+            _ ≡ 1 * a' [ZMOD m'] := h1.mul_right _
+            _ = a' := one_mul _
+      have := key.mul_left' (c := g)
+      rw [show g * b' * tmod (r * a') m' = g * (b' * tmod (r * a') m') by ring]
+      exact this
+
+theorem sqrtM_tapeFree (x : Int) : TapeFree (sqrtM x) := by
+  unfold sqrtM; exact .ite .panic (.pure _)
+
+theorem tolBounds_tapeFree (a b : Int) (t l T : Nat) : TapeFree (tolBounds a b t l T) := by
+  unfold tolBounds; exact .bind (sqrtM_tapeFree _) fun _ => .pure _
+
+theorem verifySameSecret_tapeFree (E F g1 h1 g2 h2 n : Int) (π : ProofSs) :
+    TapeFree (verifySameSecret E F g1 h1 g2 h2 n π) := by
+  unfold verifySameSecret
+  exact .bind (.pw _ _ _) fun _ => .bind (.pw _ _ _) fun _ => .bind (.pw _ _ _) fun _ =>
+    .bind (.pw _ _ _) fun _ => .bind (.pw _ _ _) fun _ => .bind (.pw _ _ _) fun _ => .pure _
+
+theorem verifyOfSquare_tapeFree (π : ProofOfS) (g h n : Int) : TapeFree (verifyOfSquare π g h n) :=
+  verifySameSecret_tapeFree _ _ _ _ _ _ _ _
+
+theorem verifyLarge_tapeFree (π : ProofLi) (E g h n : Int) (t l : Nat) (b : Int) (T : Nat) :
+    TapeFree (verifyLargeIntervalSpecific π E g h n t l b T) := by
+  unfold verifyLargeIntervalSpecific
+  exact .bind (.pw _ _ _) fun _ => .bind (.pw _ _ _) fun _ => .bind (.pw _ _ _) fun _ => .pure _
+
+/-- Everything an accepted tolerance proof was checked against (Algorithm 8 read backwards). -/
+theorem tolerance_accept_inv {π : ProofWt} {g h E n a b : Int} {t l T : Nat} {tq tq' : List Draw}
+    (hv : verifyOfToleranceSpecific π g h E n a b t l T tq = .ok (true, tq')) :
+    a ≤ b ∧ tq' = tq ∧ ∃ gaa Ea gbb Eb : Int,
+      pw g (2 ^ T * a - tolTheta t l T a b) n tq = .ok (gaa, tq) ∧
+      divm E gaa n tq = .ok (Ea, tq) ∧
+      pw g (2 ^ T * b + tolTheta t l T a b) n tq = .ok (gbb, tq) ∧
+      divm gbb E n tq = .ok (Eb, tq) ∧
+      divm Ea π.Ea1 n tq = .ok (π.Ea2, tq) ∧ divm Eb π.Eb1 n tq = .ok (π.Eb2, tq) ∧
+      π.squareA.E = π.Ea1 ∧ π.squareB.E = π.Eb1 ∧
+      verifyOfSquare π.squareA g h n tq = .ok (true, tq) ∧
+      verifyOfSquare π.squareB g h n tq = .ok (true, tq) ∧
+      verifyLargeIntervalSpecific π.largeA π.Ea2 g h n t l b T tq = .ok (true, tq) ∧
+      verifyLargeIntervalSpecific π.largeB π.Eb2 g h n t l b T tq = .ok (true, tq) := by
+  unfold verifyOfToleranceSpecific at hv
+  obtain ⟨p, t0, htb, H0⟩ := bind_ok_inv hv
+  clear hv
+  obtain ⟨aa, bb⟩ := p
+  simp only [] at H0
+  obtain ⟨hab, hp, rfl⟩ := tolBounds_ok_iff.mp htb
+  simp only [Prod.mk.injEq] at hp
+  obtain ⟨rfl, rfl⟩ := hp
+  obtain ⟨gaa, t1, h1, H1⟩ := bind_ok_inv H0
+  obtain rfl := (TapeFree.pw _ _ _).tape_eq h1
+  obtain ⟨Ea, t2, h2, H2⟩ := bind_ok_inv H1
+  obtain rfl := (divm_tapeFree _ _ _).tape_eq h2
+  obtain ⟨gbb, t3, h3, H3⟩ := bind_ok_inv H2
+  obtain rfl := (TapeFree.pw _ _ _).tape_eq h3
+  obtain ⟨Eb, t4, h4, H4⟩ := bind_ok_inv H3
+  obtain rfl := (divm_tapeFree _ _ _).tape_eq h4
+  obtain ⟨dA, t5, h5, H5⟩ := bind_ok_inv H4
+  obtain rfl := (divm_tapeFree _ _ _).tape_eq h5
+  obtain ⟨dB, t6, h6, H6⟩ := bind_ok_inv H5
+  obtain rfl := (divm_tapeFree _ _ _).tape_eq h6
+  clear H0 H1 H2 H3 H4 H5 htb
+  split at H6
+  · next hc =>
+    obtain ⟨c1, c2, c3, c4⟩ := hc
+    simp only [beq_iff_eq] at c1 c2 c3 c4
+    obtain ⟨s1, t7, h7, H7⟩ := bind_ok_inv H6
+    obtain rfl := (verifyOfSquare_tapeFree _ _ _ _).tape_eq h7
+    obtain ⟨bs, t8, h8, H8⟩ := bind_ok_inv H7
+    obtain ⟨l1, t9, h9, H9⟩ := bind_ok_inv H8
+    obtain ⟨bl, t10, h10, H10⟩ := bind_ok_inv H9
+    obtain ⟨hand, rfl⟩ := pure_ok_iff.mp H10
+    clear H6 H7 H8 H9 H10
+    rw [Bool.and_eq_true] at hand
+    obtain ⟨rfl, rfl⟩ := hand
+    cases s1 with
+    | false => simp only [Bool.false_eq_true, if_false] at h8; cases (pure_ok_iff.mp h8).1
+    | true =>
+      simp only [if_true] at h8
+      obtain rfl := (verifyOfSquare_tapeFree _ _ _ _).tape_eq h8
+      obtain rfl := (verifyLarge_tapeFree _ _ _ _ _ _ _ _ _).tape_eq h9
+      cases l1 with
+      | false => simp only [Bool.false_eq_true, if_false] at h10; cases (pure_ok_iff.mp h10).1
+      | true =>
+        simp only [if_true] at h10
+        obtain rfl := (verifyLarge_tapeFree _ _ _ _ _ _ _ _ _).tape_eq h10
+        subst c1 c2
+        exact ⟨hab, rfl, gaa, Ea, gbb, Eb, h1, h2, h3, h4, h5, h6, c3, c4, h7, h8, h9, h10⟩
+  · cases (pure_ok_iff.mp H6).1
+
+theorem two_pow_toNat (T : Nat) : ((2 : Int) ^ T).toNat = 2 ^ T := by
+  have : ((2 : Int) ^ T) = ((2 ^ T : Nat) : Int) := by push_cast; rfl
+  rw [this, Int.toNat_natCast]
+
+theorem verifyOfTolerance_tapeFree (π : ProofWt) (g h E n a b : Int) (t l T : Nat) :
+    TapeFree (verifyOfToleranceSpecific π g h E n a b t l T) := by
+  unfold verifyOfToleranceSpecific
+  refine .bind (tolBounds_tapeFree _ _ _ _ _) fun p => ?_
+  obtain ⟨aa, bb⟩ := p
+  exact .bind (.pw _ _ _) fun _ => .bind (divm_tapeFree _ _ _) fun _ => .bind (.pw _ _ _) fun _ =>
+    .bind (divm_tapeFree _ _ _) fun _ => .bind (divm_tapeFree _ _ _) fun _ =>
+    .bind (divm_tapeFree _ _ _) fun _ => .ite
+      (.bind (verifyOfSquare_tapeFree _ _ _ _) fun _ =>
+        .bind (.ite (verifyOfSquare_tapeFree _ _ _ _) (.pure _)) fun _ =>
+        .bind (verifyLarge_tapeFree _ _ _ _ _ _ _ _ _) fun _ =>
+        .bind (.ite (verifyLarge_tapeFree _ _ _ _ _ _ _ _ _) (.pure _)) fun _ => .pure _)
+      (.pure _)
+
+theorem rangeVerify_tapeFree (cs : Suite) (π : RangeProof) (g h n a b : Int) :
+    TapeFree (rangeVerify cs π g h n a b) := by
+  unfold rangeVerify
+  exact .ite .panic (.bind (.pw _ _ _) fun _ => .ite (verifyOfTolerance_tapeFree _ _ _ _ _ _ _ _ _ _)
+    (.pure _))
+
+/-- What an accepted range proof was checked against (`verify` read backwards). -/
+theorem range_accept_inv (hA : ArithOK) {cs : Suite} {π : RangeProof} {g h n a b : Int} (hn : 0 < n)
+    {tq tq' : List Draw} (hv : rangeVerify cs π g h n a b tq = .ok (true, tq')) :
+    a < b ∧ tq' = tq ∧ π.Eprime = π.E ^ (2 ^ rangeT cs a b) % n ∧
+      verifyOfToleranceSpecific π.tol g h π.Eprime n a b cs.t cs.l (rangeT cs a b) tq
+        = .ok (true, tq) := by
+  have htq := (rangeVerify_tapeFree cs π g h n a b).tape_eq hv
+  subst htq
+  unfold rangeVerify at hv
+  split at hv
+  · cases hv
+  next hab =>
+  dsimp only at hv
+  have hpw := hA.powMod_nonneg π.E (2 ^ rangeT cs a b) n hn (by positivity)
+  rw [two_pow_toNat] at hpw
+  rw [bind_of_ok (pw_apply hpw _)] at hv
+  split at hv
+  · next he =>
+    have he' : π.Eprime = π.E ^ 2 ^ rangeT cs a b % n := by simpa using he
+    exact ⟨by omega, rfl, he', hv⟩
+  · cases (pure_ok_iff.mp hv).1
+
+/-- a congruence transports `Rep` -/
+theorem Rep.of_emod_eq {n a b : Int} {u} (hn : 1 < n) (hb : Rep n b u) (h : a % n = b % n) :
+    Rep n a u := by
+  unfold Rep at *
+  rw [← hb]
+  exact (ZMod.intCast_eq_intCast_iff' a b n.toNat).mpr (by rw [natCast_toNat hn]; exact h)
+
+theorem zpow_toNat {G} [Group G] (u : G) {x : Int} (hx : 0 ≤ x) : u ^ x = u ^ x.toNat := by
+  conv_lhs => rw [← Int.toNat_of_nonneg hx]
+  exact zpow_natCast u _
+
 end Zk.ClRange
